@@ -49,6 +49,8 @@ def seq_ops():
         st.tuples(st.just('append'), v),
         st.tuples(st.just('appendleft'), v),
         st.tuples(st.just('extend'), vs),
+        st.tuples(st.just('extend'), st.lists(st.integers(0, 9), min_size=4, max_size=7)),
+        st.tuples(st.just('extend'), st.integers(101, 140).map(lambda n: list(range(n)))),  # more than one 100-row page
         st.tuples(st.just('extendleft'), vs),
         st.tuples(st.just('iadd'), vs),
         st.tuples(st.just('pop')),
@@ -59,6 +61,7 @@ def seq_ops():
         st.tuples(st.just('setitem'), i, v),
         st.tuples(st.just('delitem'), i),
         st.tuples(st.just('rotate'), st.one_of(st.integers(-9, 9), st.sampled_from([0, 1, -1, 100, -100, 1.5, 'x', None, True]))),
+        st.tuples(st.just('rotate'), st.integers(-9, 9)),
         st.tuples(st.just('reverse')),
         st.tuples(st.just('remove'), v),
         st.tuples(st.just('count'), v),
